@@ -157,7 +157,8 @@ func init() {
 		nQuick: 500, nThor: 8000, valid: 8, perSite: 2, maxDocs: 40, minDec: 2000,
 		rule: "random schemas over the supported feature space (objects, nesting<=3, arrays, formats, enums, refs, additionalProperties); documents valid by construction (maximal, minimal, random; boundary-seeking) plus model-accepted variants; each is executed by the compiled generated code; deciding observation = verdict ok AND path-wise comparison of json.Marshal(&v) and json.Marshal(v) with the input; distinct_nontrivial = distinct (schema signature, document class) pairs with >=1 deciding observation",
 	})
-	regSem(&semSpec{id: "C03",
+	twin := func(ctx *Ctx, i int, r *sg.Rng) *sem.Case { return sameRefTextTwinCase(ctx, i, r, ctx.N(12, 90)) }
+	regSem(&semSpec{id: "C03", extra: twin,
 		opts:    sg.Opts{MaxDepth: 3, PNullable: 0.3, PAddProps: 0.35, NullType: true, RootKinds: true, AddPropsTrue: true, W: map[string]float64{"map": 2.5}},
 		classes: docgen.Classes{"type": true, "nullok": true, "nullreq": true, "addkey": true},
 		own:     classOwner("type", "nullok", "addkey"),
@@ -165,7 +166,7 @@ func init() {
 		nQuick:  450, nThor: 8000, valid: 4, perSite: 6, maxDocs: 150, minDec: 5000,
 		rule: "for every typed position (property, array element, additional-property value, through $ref) of valid documents: the value is replaced by values of every other JSON type (1.5 for integer) and, where null is allowed, by null; verdict vs model, and null must decode to nil/absent; distinct_nontrivial = distinct (schema signature, mutation class) pairs",
 	})
-	regSem(&semSpec{id: "C04",
+	regSem(&semSpec{id: "C04", extra: twin,
 		opts:    sg.Opts{MaxDepth: 3, RootKinds: true, W: map[string]float64{"object": 5, "array": 2.5, "ref": 2.5, "compose": 2}, PNullable: 0.25},
 		classes: docgen.Classes{"required": true, "delopt": true, "nullreq": true},
 		own:     classOwner("required", "delopt", "nullok", "valid"),
@@ -180,6 +181,12 @@ func init() {
 		rule: "string schemas with every combination of minLength/maxLength/pattern (RE2∩ECMA pool) at required/optional/nullable/definition/array-item positions; strings of length min-1,min,max,max+1 (ASCII and 2/3/4-byte runes), matching and non-matching; verdict vs model (length in characters)",
 	})
 	regSem(&semSpec{id: "C07",
+		extra: func(ctx *Ctx, i int, r *sg.Rng) *sem.Case {
+			if i >= ctx.N(12, 60) {
+				return nil
+			}
+			return sharedNodeCase(i, r)
+		},
 		opts:    sg.Opts{MaxDepth: 3, NullType: true, RootKinds: true, W: map[string]float64{"array": 10, "object": 1.5, "ref": 2, "untyped": 1.5}, PNullable: 0.3},
 		classes: docgen.Classes{"items": true, "string": true, "bound": true, "enum": true, "required": true},
 		own:     func(d docgen.Doc, mr model.Result) bool { return true },
@@ -460,6 +467,12 @@ func sameRefTextTwinCase(ctx *Ctx, i int, r *sg.Rng, limit int) *sem.Case {
 		if r.Chance(0.5) {
 			b.Props = append(b.Props, sg.Prop{Name: fmt.Sprintf("extra%d", v), S: g.Integer()})
 		}
+		// the same key with different types in the two documents
+		if v == 0 {
+			b.Props = append(b.Props, sg.Prop{Name: "value", S: &sg.Schema{Types: []string{"string"}}})
+		} else {
+			b.Props = append(b.Props, sg.Prop{Name: "value", S: &sg.Schema{Types: []string{"integer"}}})
+		}
 		return b
 	}
 	mkRoot := func(v int) *sg.Schema {
@@ -484,4 +497,90 @@ func sameRefTextTwinCase(ctx *Ctx, i int, r *sg.Rng, limit int) *sem.Case {
 	}
 	a.Group = []*sem.Case{b}
 	return a
+}
+
+// sharedNodeCase: a definition that is used on its own AND as an earlier member of an allOf whose later member
+// redeclares the same properties with complementary keywords. The standalone use must keep the definition's own
+// rules (no later member may leak into it through shared schema nodes), the composition must enforce both.
+func sharedNodeCase(i int, r *sg.Rng) *sem.Case {
+	base := &sg.Schema{Types: []string{"object"}, Props: []sg.Prop{
+		{Name: "tags", S: &sg.Schema{Types: []string{"array"}, Items: &sg.Schema{Types: []string{"string"}}, MinItems: 1}},
+		{Name: "name", S: &sg.Schema{Types: []string{"string"}, MinLen: 2}},
+		{Name: "n", S: &sg.Schema{Types: []string{"integer"}, Min: sg.Fp(1)}},
+	}}
+	later := &sg.Schema{Types: []string{"object"}, Props: []sg.Prop{
+		{Name: "tags", S: &sg.Schema{Types: []string{"array"}, Items: &sg.Schema{Types: []string{"string"}}, MaxItems: 3}},
+		{Name: "name", S: &sg.Schema{Types: []string{"string"}, MaxLen: 5}},
+		{Name: "n", S: &sg.Schema{Types: []string{"integer"}, Max: sg.Fp(9)}},
+	}}
+	if i%2 == 1 {
+		later.Props = later.Props[:1+r.IntN(3)]
+	}
+	ref := func() *sg.Schema { return &sg.Schema{Ref: "#/$defs/Base", Target: base} }
+	comp := &sg.Schema{AllOf: []*sg.Schema{ref(), later}}
+	if i%3 == 2 {
+		comp = &sg.Schema{AnyOf: []*sg.Schema{ref(), later}}
+	}
+	root := &sg.Schema{Types: []string{"object"}, Defs: []sg.Prop{{Name: "Base", S: base}}}
+	// the order in which the two uses are generated follows the property names
+	if (i/3)%2 == 0 {
+		root.Props = []sg.Prop{{Name: "alone", S: ref()}, {Name: "limited", S: comp}}
+	} else {
+		root.Props = []sg.Prop{{Name: "zalone", S: ref()}, {Name: "limited", S: comp}}
+	}
+	alone := root.Props[0].Name
+	c := &sem.Case{Root: root, Sig: fmt.Sprintf("shared-node/%d", i%6)}
+	mk := func(key string, tags int, name string, n int64) docgen.Doc {
+		var a []any
+		for k := 0; k < tags; k++ {
+			a = append(a, fmt.Sprintf("t%d", k))
+		}
+		return docgen.Doc{V: jsonx.Obj{{K: key, V: jsonx.Obj{{K: "tags", V: a}, {K: "name", V: name}, {K: "n", V: jsonx.N(n)}}}}, Class: "sharednode", Label: key}
+	}
+	for _, key := range []string{alone, "limited"} {
+		c.Docs = append(c.Docs, mk(key, 2, "abc", 5), mk(key, 4, "abc", 5), mk(key, 10, "abc", 5), mk(key, 2, "abcdefgh", 5), mk(key, 2, "abc", 50), mk(key, 0, "abc", 5), mk(key, 2, "a", 5), mk(key, 2, "abc", 0))
+	}
+	return c
+}
+
+// collisionTripleCase: three definition (or property) names that normalise to one Go identifier, with schemas A, B, B'
+// where B' is structurally equal to B and different from A, in every order: distinct schemas must get distinct types
+// and every referrer must be bound to the type of its own schema.
+func collisionTripleCase(i int, r *sg.Rng) *sem.Case {
+	names := [][3]string{{"net-addr", "net.addr", "net_addr"}, {"a b", "a-b", "a_b"}, {"my item", "my-item", "myItem"}}[i%3]
+	mkA := func() *sg.Schema {
+		return &sg.Schema{Types: []string{"object"}, Props: []sg.Prop{{Name: "host", S: &sg.Schema{Types: []string{"string"}, MinLen: 1}}}, Required: []string{"host"}}
+	}
+	mkB := func() *sg.Schema {
+		return &sg.Schema{Types: []string{"object"}, Props: []sg.Prop{{Name: "port", S: &sg.Schema{Types: []string{"integer"}, Min: sg.Fp(1)}}}, Required: []string{"port"}}
+	}
+	orders := [][3]int{{0, 1, 1}, {1, 0, 1}, {1, 1, 0}, {0, 1, 0}, {0, 0, 1}, {1, 0, 0}}
+	ord := orders[(i/3)%len(orders)]
+	root := &sg.Schema{Types: []string{"object"}}
+	c := &sem.Case{Root: root, Sig: fmt.Sprintf("collision-triple/%d/%v", i%3, ord)}
+	doc := jsonx.Obj{}
+	bad := jsonx.Obj{}
+	for k := 0; k < 3; k++ {
+		var d *sg.Schema
+		var good, wrong any
+		if ord[k] == 0 {
+			d, good, wrong = mkA(), jsonx.Obj{{K: "host", V: "h"}}, jsonx.Obj{{K: "port", V: jsonx.N(2)}}
+		} else {
+			d, good, wrong = mkB(), jsonx.Obj{{K: "port", V: jsonx.N(2)}}, jsonx.Obj{{K: "host", V: "h"}}
+		}
+		key := fmt.Sprintf("p%d", k)
+		if i%2 == 0 {
+			root.Defs = append(root.Defs, sg.Prop{Name: names[k], S: d})
+			root.Props = append(root.Props, sg.Prop{Name: key, S: &sg.Schema{Ref: "#/$defs/" + names[k], Target: d}})
+		} else {
+			// colliding nested property names instead of definitions: RootJson<Name> type names collide
+			root.Props = append(root.Props, sg.Prop{Name: names[k], S: d})
+			key = names[k]
+		}
+		doc = append(doc, jsonx.KV{K: key, V: good})
+		bad = append(bad, jsonx.KV{K: key, V: wrong})
+		c.Docs = append(c.Docs, docgen.Doc{V: jsonx.Obj{{K: key, V: good}}, Class: "collision", Label: "own-schema"}, docgen.Doc{V: jsonx.Obj{{K: key, V: wrong}}, Class: "collision", Label: "other-schema"})
+	}
+	c.Docs = append(c.Docs, docgen.Doc{V: doc, Class: "collision", Label: "all-own"}, docgen.Doc{V: bad, Class: "collision", Label: "all-other"})
+	return c
 }
